@@ -12,6 +12,7 @@ import (
 	g "github.com/zenon-network/go-zenon/chain/genesis/mock"
 	"github.com/zenon-network/go-zenon/chain/nom"
 	"github.com/zenon-network/go-zenon/common/types"
+	"github.com/zenon-network/go-zenon/consensus"
 	"github.com/zenon-network/go-zenon/protocol"
 	"github.com/zenon-network/go-zenon/wallet"
 	"github.com/zenon-network/go-zenon/zenon/mock"
@@ -37,24 +38,34 @@ type stray struct {
 
 var strays = map[types.Hash][]stray{} // by momentum hash; reset per history
 
-// grow: k momentums on nd with random ZNN sends (content) and slot gaps
+// sendSome: 0..2 ZNN sends between users, unconfirmed on nd (content of its next momentum)
+func sendSome(nd *Node, rng *rand.Rand) []*wallet.KeyPair {
+	var senders []*wallet.KeyPair
+	for s := 0; s < rng.Intn(3); s++ {
+		from, to := users[rng.Intn(len(users))], users[rng.Intn(len(users))]
+		bal, _ := nd.Ch.GetFrontierAccountStore(from.Address).GetBalance(types.ZnnTokenStandard)
+		if bal.Cmp(big.NewInt(1000)) > 0 {
+			nd.Z.InsertSendBlock(&nom.AccountBlock{Address: from.Address, ToAddress: to.Address,
+				TokenStandard: types.ZnnTokenStandard, Amount: big.NewInt(int64(1 + rng.Intn(999)))}, nil, mock.SkipVmChanges)
+			senders = append(senders, from)
+		}
+	}
+	return senders
+}
+
+// grow: k momentums on nd with random ZNN sends (content) and slot gaps. Honest pillars stamp the START of a slot: the
+// next momentum sits 1, 2 or 3 slots after the slot its parent is in (the parent itself may be stamped inside its slot
+// when it is one of the faulty momentums of slotDelivery).
 func grow(nd *Node, rng *rand.Rand, k int) {
 	for i := 0; i < k; i++ {
-		var senders []*wallet.KeyPair
-		for s := 0; s < rng.Intn(3); s++ {
-			from, to := users[rng.Intn(len(users))], users[rng.Intn(len(users))]
-			bal, _ := nd.Ch.GetFrontierAccountStore(from.Address).GetBalance(types.ZnnTokenStandard)
-			if bal.Cmp(big.NewInt(1000)) > 0 {
-				nd.Z.InsertSendBlock(&nom.AccountBlock{Address: from.Address, ToAddress: to.Address,
-					TokenStandard: types.ZnnTokenStandard, Amount: big.NewInt(int64(1 + rng.Intn(999)))}, nil, mock.SkipVmChanges)
-				senders = append(senders, from)
-			}
-		}
+		senders := sendSome(nd, rng)
 		var st []stray
 		if rng.Intn(4) != 0 {
 			st = makeStrays(nd, rng, senders)
 		}
-		if err := ProduceAt(nd, []int64{10, 10, 10, 20, 30}[rng.Intn(5)]); err != nil {
+		dt := []int64{10, 10, 10, 20, 30}[rng.Intn(5)]
+		dt -= (int64(FrontierOf(nd.Ch).TimestampUnix) - genesisSec) % slotSec
+		if err := ProduceAt(nd, dt); err != nil {
 			panic(err)
 		}
 		if len(st) > 0 {
@@ -159,11 +170,14 @@ func blockZ(b *nom.AccountBlock) interface{} {
 
 // corrupt one delivered element. l is the receiving node; lo..hi are the heights of the batch (an extra account block is
 // never taken from a momentum of the batch itself, so that every block has one place in it).
-func corrupt(rng *rand.Rand, e *delivered, src chain.Chain, l chain.Chain, lo, hi uint64) {
+// cs is the consensus of the source node (who is elected for which slot on the chain the element belongs to).
+func corrupt(rng *rand.Rand, e *delivered, src chain.Chain, cs consensus.Consensus, l chain.Chain, lo, hi uint64) {
 	d := e.d
 	m := d.Momentum
 	kinds := []string{"bad-signature", "wrong-producer", "wrong-changes-hash", "extra-account-block",
-		"surplus-junk-contract-send", "surplus-junk-contract-send", "surplus-block-of-later-momentum"}
+		"surplus-junk-contract-send", "surplus-junk-contract-send", "surplus-block-of-later-momentum",
+		"stamped-inside-slot-by-elected-pillar", "stamped-inside-slot-by-elected-pillar",
+		"stamped-at-later-slot-start-by-this-slots-pillar", "signed-by-pillar-of-nearby-slot"}
 	if len(d.AccountBlocks) > 0 {
 		kinds = append(kinds, "missing-account-block", "invalid-account-block", "missing-account-block", "content-header-mismatch",
 			"duplicate-of-named-block(valid)", "tampered-duplicate-before-named-block", "tampered-duplicate-after-named-block(valid)",
@@ -207,6 +221,40 @@ func corrupt(rng *rand.Rand, e *delivered, src chain.Chain, l chain.Chain, lo, h
 	case "wrong-changes-hash":
 		m.ChangesHash[rng.Intn(32)] ^= 0x10
 		Resign(m)
+		e.okM = false
+	case "stamped-inside-slot-by-elected-pillar":
+		// everything honest (content, changes hash, hash, signature of the pillar elected for the slot), but the momentum is
+		// stamped with second 1..9 of its slot instead of the first one
+		m.TimestampUnix = uint64(slotOf(int64(m.TimestampUnix)) + 1 + int64(rng.Intn(int(slotSec)-1)))
+		Resign(m)
+		e.okM = false
+	case "stamped-at-later-slot-start-by-this-slots-pillar":
+		// the pillar of this slot stamps the start of a slot 1..3 later, which belongs to somebody else
+		prod, moved := types.PubKeyToAddress(m.PublicKey), false
+		for _, k := range rng.Perm(3) {
+			ts := int64(m.TimestampUnix) + int64(k+1)*slotSec
+			if _, who, ok := electedAt(cs, ts); ok && who != prod {
+				m.TimestampUnix, moved = uint64(ts), true
+				kind = fmt.Sprintf("stamped-at-slot-start+%d-by-this-slots-pillar", k+1)
+				break
+			}
+		}
+		if !moved {
+			m.TimestampUnix = uint64(slotOf(int64(m.TimestampUnix)) + 1 + int64(rng.Intn(int(slotSec)-1)))
+			kind = "stamped-inside-slot-by-elected-pillar"
+		}
+		Resign(m)
+		e.okM = false
+	case "signed-by-pillar-of-nearby-slot":
+		// right timestamp, signed by the pillar elected for a slot 1..3 before / after it
+		if dist, kp := pillarAtDistance(cs, rng, int64(m.TimestampUnix)); kp != nil {
+			m.Signature = kp.Sign(m.Hash.Bytes())
+			m.PublicKey = kp.Public
+			kind = fmt.Sprintf("slot-start-signed-by-pillar-of-slot%+d", dist)
+		} else {
+			m.Signature[rng.Intn(len(m.Signature))] ^= 0x08
+			kind = "bad-signature"
+		}
 		e.okM = false
 	case "content-header-mismatch":
 		// the momentum lists another block hash than the one delivered with it
@@ -589,6 +637,24 @@ func (w *world) deliverAfter(batch []delivered, kind string, src chain.Chain, fi
 				break scan
 			}
 		}
+	}
+	// (1a) only verified momentums on the chain, stated without the generator's books: every momentum adopted by this call is
+	// stamped with the start of a slot by the pillar elected for it, later than its parent, with the hash of its fields and
+	// the signer's signature
+	for h := uint64(2); h <= after.Height; h++ {
+		if h <= before.Height && hashAt(l.Ch, h) == oldHashes[h] {
+			continue
+		}
+		as := "not in the batch"
+		for i := range batch {
+			if batch[i].d.Momentum.Hash == hashAt(l.Ch, h) {
+				as = "element " + fmt.Sprint(i) + " of " + fmt.Sprint(len(batch)) + ": " + batch[i].reason
+				if batch[i].reason == "" {
+					as = "element " + fmt.Sprint(i) + " of " + fmt.Sprint(len(batch)) + ": as produced"
+				}
+			}
+		}
+		adoptedMomentumOracle(out, l, h, kind, as)
 	}
 	// (1) only verified momentums on the chain: every stored momentum is byte-identical to a genuinely produced one
 	okStored := true
@@ -1065,7 +1131,7 @@ func (w *world) interleavedDelivery(s, other *Node) {
 		}
 		if nk < len(batch) {
 			i := nk + rng.Intn(len(batch)-nk)
-			corrupt(rng, &batch[i], s.Ch, l.Ch, batch[0].d.Momentum.Height, hi)
+			corrupt(rng, &batch[i], s.Ch, s.Cs, l.Ch, batch[0].d.Momentum.Height, hi)
 			w.out.Count("sync:corruption:" + batch[i].reason)
 			name += "+invalid-element"
 		}
@@ -1162,7 +1228,7 @@ func (w *world) randomDelivery(s *Node) {
 		if nk > 0 && rng.Intn(8) == 0 {
 			i = rng.Intn(nk) // inside the known part
 		}
-		corrupt(rng, &b[i], s.Ch, w.l.Ch, b[0].d.Momentum.Height, b[len(b)-1].d.Momentum.Height)
+		corrupt(rng, &b[i], s.Ch, s.Cs, w.l.Ch, b[0].d.Momentum.Height, b[len(b)-1].d.Momentum.Height)
 		kind := "invalid-in-fork-" + tagDepth
 		if depth == 0 {
 			kind = "invalid-in-extension"
@@ -1332,9 +1398,19 @@ func syncHistory(rng *rand.Rand, out *Out, first bool) (reproduced bool) {
 				w.fillPool()
 			}
 			w.interleavedDelivery(src, other)
+		case 6:
+			if rng.Intn(3) == 0 {
+				w.fillPool()
+			}
+			w.slotDelivery(src)
 		default:
 			w.randomDelivery(src)
 		}
+	}
+	// ORACLE: whatever path brought it there (the initial sync included), every momentum of the resulting chain sits at the
+	// start of a slot, signed by the pillar elected for it
+	for h := uint64(2); h <= FrontierOf(w.l.Ch).Height; h++ {
+		adoptedMomentumOracle(out, w.l, h, "resulting-chain", "")
 	}
 	// ORACLE: every momentum (and its account blocks) of the resulting chain re-verifies on a fresh node
 	fresh := OpenBare("")
